@@ -35,24 +35,37 @@ Definition dict_get (t : srs) (d : list (srs * list srs)) : option (list srs) :=
   | None => None
   end.
 
-(* PreferredSrcSRS.preferred_src(target, available_src); None = ValueError *)
+(* PreferredSrcSRS.preferred_src(target, available_src); None = ValueError.
+   Always returns an element of available_src (the object that carries the supported srs_code). *)
+Fixpoint first_avail (prefs avail : list srs) : option srs :=
+  match prefs with
+  | [] => None
+  | p :: r =>
+    match find (fun a => srs_eq a p) avail with
+    | Some a => Some a
+    | None => first_avail r avail
+    end
+  end.
+
 Definition preferred_src (d : list (srs * list srs)) (t : srs) (avail : list srs) : option srs :=
   match avail with
   | [] => None
   | a0 :: _ =>
-    if mem_srs t avail then Some t
-    else
+    match find (fun a => srs_eq a t) avail with
+    | Some a => Some a
+    | None =>
       match (match dict_get t d with
-             | Some prefs => find (fun p => mem_srs p avail) prefs
+             | Some prefs => first_avail prefs avail
              | None => None
              end) with
-      | Some p => Some p
+      | Some a => Some a
       | None =>
         match find (fun a => Bool.eqb (s_latlong a) (s_latlong t)) avail with
         | Some a => Some a
         | None => Some a0
         end
       end
+    end
   end.
 
 (* ------------------------------------------------------------------ image formats *)
@@ -148,18 +161,19 @@ Definition V_EMPTY : Z := 7.
 Definition reserved (k : Z) : bool :=
   (k =? K_BBOX) || (k =? K_WIDTH) || (k =? K_HEIGHT) || (k =? K_SRS) || (k =? K_FORMAT).
 
-(* what _query_req decided before the forwarded dimensions are merged in *)
+(* what _query_req is called with: the negotiated values and the dimensions to forward *)
 Record request := mkReq { r_bbox : bbox; r_w : Z; r_h : Z; r_srs : srs; r_fmt : fmt; r_fwd : list dim }.
 
 (* WMSClient._query_req + WMSMapRequest.adapt_params_to_version (WMS 1.1.1): the parameters of the URL.
    tmpl: parameters of the request template; fixed: fixed_params of the request class *)
 Definition url_params (tmpl : params) (fixed : list (Z * Z)) (r : request) : params :=
-  let m1 := pset K_BBOX [VBox (r_bbox r)] tmpl in
+  (* forwarded dimensions first, then the negotiated values *)
+  let m0 := pupdate tmpl (map (fun d => (d_lower d, VStr (d_val d))) (r_fwd r)) in
+  let m1 := pset K_BBOX [VBox (r_bbox r)] m0 in
   let m2 := pset K_HEIGHT [VInt (r_h r)] (pset K_WIDTH [VInt (r_w r)] m1) in
   let m3 := pset K_SRS [VStr (s_code (r_srs r))] m2 in
   let m4 := pset K_FORMAT [VStr (f_mime (r_fmt r))] m3 in
-  let m5 := pupdate m4 (map (fun d => (d_lower d, VStr (d_val d))) (r_fwd r)) in
-  let m6 := fold_left (fun m kv => pset (fst kv) [VStr (snd kv)] m) fixed m5 in
+  let m6 := fold_left (fun m kv => pset (fst kv) [VStr (snd kv)] m) fixed m4 in
   match pget K_STYLES m6 with
   | Some _ => m6
   | None => pset K_STYLES [VStr V_EMPTY] m6
